@@ -17,7 +17,7 @@ QS = ["0.0", "0.5", "-0.5", "0.25", "-0.25", "1.0", "-1.0", "0.125"]
 MS = ["12.0", "14.0", "16.0", "36.0", "45.0", "72.0", "1.0"]
 TYPES = ["C1", "P2", "Qa", "SN1", "OA", "CH2", "TC3"]
 SECTIONS = ["bonds", "angles", "dihedrals", "constraints", "exclusions", "pairs", "virtual_sites2", "virtual_sites3",
-            "position_restraints", "impropers"]
+            "position_restraints"]
 SEC_N = {"bonds": 2, "angles": 3, "dihedrals": 4, "constraints": 2, "exclusions": 2, "pairs": 2, "virtual_sites2": 3, "virtual_sites3": 4,
          "position_restraints": 1, "impropers": 4}
 SEC_PAR = {"bonds": 3, "angles": 3, "dihedrals": 4, "constraints": 2, "exclusions": 0, "pairs": 1, "virtual_sites2": 2, "virtual_sites3": 3,
@@ -37,7 +37,7 @@ def _params(rng, sec, salt):
 
 def _rand_inters(rng, n, sections, allow_dup, bonded_only=False):
     """random interaction list of a block with n atoms; atom tuples are distinct inside a section unless allow_dup draws a
-    second entry on the same atoms (with a version tag, or - rarely - without: finding F16)"""
+    second entry on the same atoms (with a version tag, or - rarely - without: finding F30)"""
     inters = []
     chain = list(range(1, n + 1))
     for a in range(1, n):         # a connected backbone so that link-made bonds give distances
@@ -168,14 +168,17 @@ def rand_case(rng, prop, idx):
     for _ in range(rng.randint(1, 3)):
         ordr = rng.choice(["+", "+", ">"])
         links.append({"kind": "bond", "ord": ordr, "rns": allrn, "a": "a%d" % rng.randint(1, 3), "b": "a%d" % rng.randint(1, 2),
-                      "sec": "constraints" if rng.random() < 0.15 else "bonds", "par": _params(rng, "bonds", 50 + len(links))})
-    if c14 and rng.random() < 0.4:
-        links.append({"kind": "bond", "ord": "+", "rns": allrn, "a": "a1", "b": "a%d" % rng.randint(2, 3), "sec": "exclusions", "par": []})
-    if not c14 and rng.random() < 0.35:
-        links.append({"kind": "remove", "ord": "0", "rns": [rng.choice(names)], "a": "a%d" % rng.randint(1, 3), "b": "", "sec": "", "par": []})
+                      "sec": "constraints" if rng.random() < 0.15 else "bonds", "par": _params(rng, "bonds", 50 + len(links)),
+                      "xb": ("a%d" % rng.randint(1, 3)) if c14 and rng.random() < 0.3 else ""})
+    for l in links:
+        if l["sec"] == "constraints":
+            l["par"] = l["par"][:2]
+    big = [b["name"] for b in blocks if b is not multi and len(b["atoms"]) >= 2]
+    if not c14 and big and rng.random() < 0.35:      # never the only atom of a residue: every residue stays in the molecule
+        links.append({"kind": "remove", "ord": "0", "rns": [rng.choice(big)], "a": "a%d" % rng.randint(1, 3), "b": "", "sec": "", "par": [], "xb": ""})
     if not c14 and rng.random() < 0.35:
         links.append({"kind": "retype", "ord": "0", "rns": [rng.choice(names)], "a": "a%d" % rng.randint(1, 2), "b": "", "sec": "",
-                      "par": [rng.choice(TYPES), rng.choice(QS)]})
+                      "par": [rng.choice(TYPES), rng.choice(QS)], "xb": ""})
     # two bond links must not write the same (atoms, version) with the same definition index: a later link wins, no ties
     ff = {"blocks": blocks, "links": links, "mods": []}
     start = 1 if rng.random() < 0.3 else rng.randint(1, 12)
@@ -359,7 +362,10 @@ def _library_chunk(arg):
                 with u.time_limit(120):
                     sys.argv = ["polyply", "gen_params"]
                     gen_params(name=name, outpath=o, inpath=[Path(p) for p in inpath], lib=[lib], seq=seq, seq_file=Path(seqf) if seqf else None)
-                r["itp"] = u.read_itp(o)
+                try:
+                    r["itp"] = u.read_itp(o)
+                except u.ReaderUnknown as exc:
+                    r["itp_skip"] = str(exc)
             except u.CaseTimeout:
                 r["exc"] = {"type": "HANG", "msg": "no return within 120 s", "site": "", "stage": "gen_params"}
             except c.MachineryError:
@@ -423,22 +429,19 @@ def validate(ck, prop, doc, name, asis=False, count=True):
 
 def accepted(case, ents):
     """a record is accepted iff some behaviour of the model has verdict ok at every stage the code reached"""
-    by_f = {}
-    for stage, verdict, fired in ents:
-        by_f.setdefault(fired, {})[stage] = verdict
-    for fired, st in by_f.items():
-        if case["raised"]:
-            continue
-        if st.get("final") == "ok" and (st.get("base") == "ok" or not case["hasBase"]):
-            return True, fired
+    if case["raised"]:
+        return False, None
+    finals = [f for st, v, f in ents if st == "final" and v == "ok"]
+    bases = [f for st, v, f in ents if st == "base" and v == "ok"]
+    for ff in sorted(finals, key=len):       # the deviations fired so far only grow along a behaviour
+        if not case["hasBase"] or any(set(fb) <= set(ff) for fb in bases):
+            return True, ff
     return False, None
 
 
 def first_bad(ents):
-    for stage, verdict, fired in sorted(ents):
-        if verdict != "ok":
-            return "%s: %s" % (stage, verdict)
-    return "no verdict"
+    bad = ["%s: %s" % (stage, verdict) for stage, verdict, fired in sorted(ents) if verdict not in ("ok", "no-observation")]
+    return "; ".join(bad) if bad else "no verdict"
 
 
 def exc_matches(exc, verdict):
@@ -446,6 +449,8 @@ def exc_matches(exc, verdict):
         return exc["type"] in ("OSError", "IOError") and "match_nodes_to_blocks" in exc["site"] and "mismatch in the length" in exc["msg"]
     if verdict == "model-error:index":
         return exc["type"] == "IndexError" and "match_link_and_residue_atoms" in exc["site"]
+    if verdict == "model-error:fragindex":
+        return exc["type"] == "IndexError" and "map_to_molecule.py:add_blocks" in exc["site"]
     return False
 
 
@@ -472,7 +477,8 @@ def judge(ck, prop, doc, metas, name):
             if case["raised"]:
                 for stage, verdict, fired in ents:
                     if fired and exc_matches(meta["exc"], verdict):
-                        sig = fired[0]
+                        sig = fired[-1] if verdict == "model-error:fragindex" and "F32" in fired else fired[0]
+                        sig = "F32" if verdict == "model-error:fragindex" else sig
             else:
                 ok, fired = accepted(case, ents)
                 if ok and fired:
@@ -602,7 +608,7 @@ def itp_agrees(ck, prop, doc, metas):
         if not meta.get("itp") or case["raised"]:
             continue
         n += 1
-        d = u.diff_mol(case["final"], meta["itp"], with_ver=False, gattr=False, what="written .itp vs molecule")
+        d = u.diff_mol(case["final"], meta["itp"], with_ver=False, gattr=False, what="written .itp vs molecule", itp=True)
         if d:
             ck.violation({"kind": "itp", "case": case, "itp": meta["itp"]}, what="%s: %s" % (meta["via"], d))
     return n
@@ -625,6 +631,9 @@ def run_traces(ck, prop, tier, sd):
     # binding demonstration: one corrupted record must be rejected
     good = [i for i, case in enumerate(doc["cases"]) if accepted(case, by.get(i + 1, []))[0]]
     if not good:
+        if ck.violations:       # nothing was accepted because the code misbehaves on everything: the verdict is already "violation"
+            ck.extra["binding_demo"] = "skipped: no record of this run was accepted"
+            return
         raise c.MachineryError("no accepted record to demonstrate the binding with")
     i = good[len(good) // 2]
     bad = json.loads(json.dumps(doc["cases"][i]))
